@@ -15,7 +15,9 @@ class Violation(Exception):
         self.cls, self.msg, self.step = cls, msg, step
 
 
-DISTS = ['norm', 'expon', 'beta', 'gamma', 'lognorm', 'uniform_frozen']
+DISTS = ['norm', 'expon', 'beta', 'gamma', 'lognorm', 'uniform_frozen',
+         'uniform_mixed', 'uniform_pos', 'norm_pos', 'norm_mixed',
+         'expon_mixed', 'uniform_scale_only']
 
 
 def make_dist(spec):
@@ -33,6 +35,20 @@ def make_dist(spec):
         return st.lognorm(0.25 + 0.1 * b, scale=1.0 + abs(a))
     if name == 'uniform_frozen':
         return st.uniform(loc=a, scale=b)
+    # the same families declared in the other legal styles (positional,
+    # mixed positional/keyword, defaults)
+    if name == 'uniform_mixed':
+        return st.uniform(a, scale=b)
+    if name == 'uniform_pos':
+        return st.uniform(a, b)
+    if name == 'uniform_scale_only':
+        return st.uniform(scale=b)
+    if name == 'norm_pos':
+        return st.norm(a, b)
+    if name == 'norm_mixed':
+        return st.norm(a, scale=b)
+    if name == 'expon_mixed':
+        return st.expon(a, scale=b)
     raise ValueError(name)
 
 
